@@ -32,10 +32,10 @@ From Coq Require Import NArith List Bool.
 From CS Require Import Sx Str.
 Import ListNotations.
 
-Definition name := N.
-Definition path := list N.
-Definition oid := N.
-Definition meta := list (N * N).         (* key -> value; value 0 = a value of the wrong type *)
+Notation name := N (only parsing).
+Notation path := (list N) (only parsing).
+Notation oid := N (only parsing).
+Notation meta := (list (N * N)) (only parsing).         (* key -> value; value 0 = a value of the wrong type *)
 
 Inductive node := Node (dir : bool) (id : option oid) (md : meta) (kids : list (name * node)).
 
@@ -125,11 +125,15 @@ Fixpoint paths (t : node) : list path :=
     [] :: flat_map (fun nc => map (cons (fst nc)) (paths (snd nc))) kids
   end.
 
-(* all stored names are normalised and non-empty: the states in which path lookups reach every node *)
-Fixpoint keys_ok (fold : N -> N) (t : node) : bool :=
-  match t with Node _ _ _ kids =>
-    forallb (fun nc => N.eqb (fold (fst nc)) (fst nc) && negb (N.eqb (fst nc) 0) && keys_ok fold (snd nc)) kids
+(* a local condition (on a node's type and the list of its children's names) holding at every node *)
+Fixpoint all_nodes (P : bool -> list name -> bool) (t : node) : bool :=
+  match t with Node d _ _ kids =>
+    P d (map fst kids) && forallb (fun nc => all_nodes P (snd nc)) kids
   end.
+
+(* all stored names are normalised and non-empty: the states in which path lookups reach every node *)
+Definition name_ok (fold : N -> N) (k : name) : bool := N.eqb (fold k) k && negb (N.eqb k 0).
+Definition keys_ok (fold : N -> N) (t : node) : bool := all_nodes (fun _ ks => forallb (name_ok fold) ks) t.
 
 (* Provider.join drops empty names *)
 Definition clean (p : path) : path := filter (fun n => negb (N.eqb n 0)) p.
@@ -251,7 +255,9 @@ Definition set_oid_node (cf : cfg) (c : cache) (rp : path) (o : oid) : outcome *
           else (ROk, with_ghost c1 o (Node d (Some o) m []), FGhost)
         | Some _ =>
           if attached then
-            let '(r, c2) := make_node cf c1 d rp (Some o) None in (r, c2, FGone)
+            (* the node is replaced by a fresh one; the root object itself is never replaced *)
+            let '(r, c2) := make_node cf c1 d rp (Some o) None in
+            (r, c2, match rp with [] => FSame | _ => FGone end)
           else (RErr EType, c1, FGone)                               (* normalize_path(None) *)
         end
       end
